@@ -18,6 +18,7 @@ Record case := {
   c_init : ident;
   c_call : ident;
   c_odd : list ident;              (* staticmethod, classmethod *)
+  c_prop : ident;                  (* property *)
   c_kwlike : list N;               (* ids of the tokens that textually look like keyword arguments *)
   c_skip : list N;                 (* ids of tokens in a textual situation outside the model *)
   c_rope : list (N * list N);
@@ -47,7 +48,7 @@ Section Run.
   Let bi := c_builtins c.
   Let tblst := rope_inh bi rt (c_idents c).
   Let inh := inh_of (fst tblst).
-  Let ms := methods (c_odd c) p.
+  Let ms := methods (c_odd c) (c_prop c) p.
   Let kwl := kw_of (c_kwlike c).
   Let ts := toks p.
   Let pn := rope_pyname_at bi inh rt (c_init c) (c_call c) ms kwl.
@@ -144,7 +145,7 @@ Section Run.
                if parent_is_class rt (t_env t)
                then (if present bi inh rt (t_env t) (t_name t) then 0 else 5)
                else if inner_ok inh rt t then 0 else 6
-           | RParam _ => if tok_ok bi inh rt kwl t then 0 else 7
+           | RParam _ => if tok_ok bi inh rt ms kwl t then 0 else 7
            | _ => 0
            end in
          if N.eqb r 0 then (if imp_conflict t then 8 else 0) else r
@@ -182,7 +183,7 @@ Definition describe (c : case) : list (N * N * list N) :=
   let rt := rope_tree p in
   let bi := c_builtins c in
   let inh := inh_of (fst (rope_inh bi rt (c_idents c))) in
-  let ms := methods (c_odd c) p in
+  let ms := methods (c_odd c) (c_prop c) p in
   let kwl := kw_of (c_kwlike c) in
   let ts := toks p in
   let pn := rope_pyname_at bi inh rt (c_init c) (c_call c) ms kwl in
